@@ -39,7 +39,7 @@ EXTENDS Naturals, Sequences, FiniteSets, TLC
 
 CONSTANTS
     MaxDepth,     \* histories of at most this many calls
-    BaseSel,      \* "memo" | "graph" | "core" | "all" | "god" | "godall" : which bases the model explores
+    BaseSel,      \* "memo" | "graph" | "core" | "quickcore" | "all" | "god" | "godall" : which bases the model explores
     LaySel,       \* "C" | "all"      : which memory layouts
     ProjKeyMode,  \* "full" | "no_from"      : _projection_cache key
     DbetaKeyMode, \* "full" | "len_only"     : _dbeta_cache key
@@ -87,7 +87,7 @@ LikeB    == {"ll_2d", "ll_multinom_2d", "optimal_sfs_scaling_2d", "ll_per_bin_2d
 ObjB     == {"object_func_A", "object_func_B_store", "optimize_grid_A"}
 PerturbB == {"perturb_params_none_bounds"}
 PerturbVB == {"perturb_params_array"}
-GodTransB == {"fim_A", "fim_B", "gim_A", "gim_B"}
+GodTransB == {"fim_A", "fim_B", "gim_A", "gim_B", "lrt_A", "lrt_B"}
 GodNamedB == {"fim_A_named", "fim_B_named"}
 GodB     == GodTransB \cup GodNamedB
 DemesFullB  == {"demes_output_X", "demes_output_Y", "demes_output_none"}
@@ -96,7 +96,92 @@ DemesB   == DemesFullB \cup DemesAgainB
 LowPassFuncB == {"lowpass_func_2d", "lowpass_cov_dist_2pop"}       \* per-population coverage dict -> corrected 2-D model spectrum
 DemesSFSB == {"demes_sfs_ancient", "demes_sfs_present", "from_demes_ancient"}   \* demes graph -> spectrum (ancient: sample_times with a non-zero entry)
 
-AllBases == ProjectB \cup Stat1B \cup StatNB \cup DataDictB \cup FromPhi1B \cup FromPhiNB \cup Inb1B \cup InbNB \cup NumB
+\* ------------------------------------------------------------------ alphabet extension (quantifier audit)
+\* The remaining public functions of dadi.Spectrum / Numerics / Inference / Misc / PhiManip / Integration / Godambe / LowPass /
+\* DFE.PDFs that take array or list arguments or touch module-level state.  One row per base:
+\*   <<base, dadi function, layout class, effect on the demes event log, bit-for-bit under layout changes>>
+\* layout classes: "n" contiguous only; "a3" array in {C, F, N}; "v3" vector in {C, S, N}; "x3" grid in {C, S, N};
+\*                 "ax" array in {C, F, N} x grid in {C, S}; "vv" two vectors, each in {C, S, N}
+ExtraTab == {
+    <<"zengs_E_1d", "Spectrum.Zengs_E", "v3", "none", FALSE>>,
+    <<"theta_L_1d", "Spectrum.theta_L", "v3", "none", FALSE>>,
+    <<"combine_two_pops_3d", "Spectrum.combine_two_pops", "a3", "none", FALSE>>,
+    <<"scramble_2d", "Spectrum.scramble_pop_ids", "a3", "none", FALSE>>,
+    <<"sample_2d", "Spectrum.sample", "a3", "none", TRUE>>,
+    <<"fixed_size_sample_1d", "Spectrum.fixed_size_sample", "v3", "none", FALSE>>,
+    <<"apply_anc_state_misid_2d", "Numerics.apply_anc_state_misid", "a3", "none", TRUE>>,
+    <<"misc_combine_pops_3d", "Misc.combine_pops", "a3", "none", FALSE>>,
+    <<"ll_multinom_per_bin_2d", "Inference.ll_multinom_per_bin", "a3", "none", FALSE>>,
+    <<"optimally_scaled_sfs_2d", "Inference.optimally_scaled_sfs", "a3", "none", FALSE>>,
+    <<"linear_residual_2d", "Inference.linear_Poisson_residual", "a3", "none", TRUE>>,
+    <<"fs_add_2d", "Spectrum.__add__", "a3", "none", TRUE>>,
+    <<"to_file_2d", "Spectrum.to_file", "a3", "none", TRUE>>,
+    <<"intersect_masks_2d", "Numerics.intersect_masks", "a3", "none", TRUE>>,
+    <<"reverse_array_3d", "Numerics.reverse_array", "a3", "none", TRUE>>,
+    <<"trapz_2d", "Numerics.trapz", "ax", "none", FALSE>>,
+    <<"end_point_first_derivs", "Numerics.end_point_first_derivs", "x3", "none", TRUE>>,
+    <<"quadratic_extrap", "Numerics.quadratic_extrap", "n", "none", TRUE>>,
+    <<"extrap_func_A", "Numerics.make_extrap_func", "n", "reset2", TRUE>>,
+    <<"from_phi_1d_direct", "Spectrum.from_phi", "vv", "none", FALSE>>,
+    <<"from_phi_2d_direct", "Spectrum.from_phi", "ax", "none", FALSE>>,
+    <<"from_phi_3d_direct", "Spectrum.from_phi", "ax", "none", FALSE>>,
+    <<"from_phi_2d_admix_props", "Spectrum.from_phi", "ax", "none", FALSE>>,
+    <<"from_phi_2d_het_xx", "Spectrum.from_phi", "ax", "none", FALSE>>,
+    <<"from_phi_inb_3d_422", "Spectrum.from_phi_inbreeding", "ax", "none", FALSE>>,
+    <<"from_phi_2d_43_A_containers", "Spectrum.from_phi", "n", "none", TRUE>>,
+    <<"project_2d_64_43_nsarray", "Spectrum.project", "n", "none", TRUE>>,
+    <<"ms_command", "Misc.ms_command", "n", "none", TRUE>>,
+    <<"count_data_dict", "Misc.count_data_dict", "n", "none", TRUE>>,
+    <<"zero_diag", "Misc.zero_diag", "a3", "none", TRUE>>,
+    <<"total_instantaneous_rate", "Misc.total_instantaneous_rate", "a3", "none", FALSE>>,
+    <<"phi_1D_snm", "PhiManip.phi_1D_snm", "x3", "none", TRUE>>,
+    <<"phi_1D_X", "PhiManip.phi_1D_X", "x3", "none", TRUE>>,
+    <<"phi_2D_to_3D_split_2", "PhiManip.phi_2D_to_3D_split_2", "ax", "append1", TRUE>>,
+    <<"phi_2D_admix_2_into_1", "PhiManip.phi_2D_admix_2_into_1", "ax", "append1", FALSE>>,
+    <<"phi_3D_admix_1_and_3_into_2", "PhiManip.phi_3D_admix_1_and_3_into_2", "ax", "append1", FALSE>>,
+    <<"phi_3D_admix_2_and_3_into_1", "PhiManip.phi_3D_admix_2_and_3_into_1", "ax", "append1", FALSE>>,
+    <<"phi_4D_admix_into_1", "PhiManip.phi_4D_admix_into_1", "ax", "append1", FALSE>>,
+    <<"phi_4D_admix_into_2", "PhiManip.phi_4D_admix_into_2", "ax", "append1", FALSE>>,
+    <<"phi_4D_admix_into_3", "PhiManip.phi_4D_admix_into_3", "ax", "append1", FALSE>>,
+    <<"phi_4D_admix_into_4", "PhiManip.phi_4D_admix_into_4", "ax", "append1", FALSE>>,
+    <<"phi_5D_admix_into_1", "PhiManip.phi_5D_admix_into_1", "ax", "append1", FALSE>>,
+    <<"phi_5D_admix_into_2", "PhiManip.phi_5D_admix_into_2", "ax", "append1", FALSE>>,
+    <<"phi_5D_admix_into_3", "PhiManip.phi_5D_admix_into_3", "ax", "append1", FALSE>>,
+    <<"phi_5D_admix_into_4", "PhiManip.phi_5D_admix_into_4", "ax", "append1", FALSE>>,
+    <<"phi_5D_admix_into_5", "PhiManip.phi_5D_admix_into_5", "ax", "append1", FALSE>>,
+    <<"filter_pops_3d", "PhiManip.filter_pops", "ax", "append1", FALSE>>,
+    <<"one_pop_X_c", "Integration.one_pop_X", "vv", "none", TRUE>>,
+    <<"optimize_log_A", "Inference.optimize_log", "n", "reset2", TRUE>>,
+    <<"optimize_A", "Inference.optimize", "n", "reset2", TRUE>>,
+    <<"optimize_log_fmin_A", "Inference.optimize_log_fmin", "n", "reset2", TRUE>>,
+    <<"optimize_log_lbfgsb_A", "Inference.optimize_log_lbfgsb", "n", "reset2", TRUE>>,
+    <<"optimize_lbfgsb_A", "Inference.optimize_lbfgsb", "n", "reset2", TRUE>>,
+    <<"opt_nlopt_A", "Inference.opt", "n", "reset2", TRUE>>,
+    <<"lrt_A", "Godambe.LRT_adjust", "n", "reset2", TRUE>>,
+    <<"lrt_B", "Godambe.LRT_adjust", "n", "reset2", TRUE>>,
+    <<"get_hess_quadratic", "Godambe.get_hess", "n", "none", TRUE>>,
+    <<"get_grad_quadratic", "Godambe.get_grad", "n", "none", TRUE>>,
+    <<"sum_chi2_ppf", "Godambe.sum_chi2_ppf", "v3", "none", TRUE>>,
+    <<"lowpass_part_inbreeding_prob", "LowPass.part_inbreeding_probability", "n", "none", TRUE>>,
+    <<"lowpass_projection_inbreeding", "LowPass.projection_inbreeding", "n", "none", TRUE>>,
+    <<"lowpass_split_list", "LowPass.split_list_by_lengths", "n", "none", TRUE>>,
+    <<"lowpass_flatten_nested", "LowPass.flatten_nested_list", "n", "none", TRUE>>,
+    <<"lowpass_no_call_6", "LowPass.probability_of_no_call_1D_GATK_multisample", "n", "none", TRUE>>,
+    <<"lowpass_subsample_genotypes", "LowPass.subsample_genotypes_1D", "n", "none", TRUE>>,
+    <<"pdf_gamma", "DFE.PDFs.gamma", "v3", "none", TRUE>>,
+    <<"pdf_lognormal", "DFE.PDFs.lognormal", "v3", "none", TRUE>>,
+    <<"pdf_exponential", "DFE.PDFs.exponential", "v3", "none", TRUE>>,
+    <<"pdf_beta", "DFE.PDFs.beta", "v3", "none", TRUE>>,
+    <<"pdf_biv_lognormal", "DFE.PDFs.biv_lognormal", "vv", "none", TRUE>>,
+    <<"pdf_biv_ind_gamma", "DFE.PDFs.biv_ind_gamma", "vv", "none", TRUE>>,
+    <<"pdf_biv_lognormal_py", "DFE.PDFs.biv_lognormal_py", "vv", "none", TRUE>> }
+ExtraB == {e[1] : e \in ExtraTab}
+ExtraRow(b) == CHOOSE e \in ExtraTab : e[1] = b
+ExtraLay(b) == IF b \in ExtraB THEN ExtraRow(b)[3] ELSE ""
+OptB == {"optimize_log_A", "optimize_A", "optimize_log_fmin_A", "optimize_log_lbfgsb_A", "optimize_lbfgsb_A", "opt_nlopt_A"}   \* (an optimiser run evaluates the objective at least once)
+LrtB == {"lrt_A", "lrt_B"}         \* differentiate an internal closure over the model: a new function object in every call
+
+AllBases == ExtraB \cup ProjectB \cup Stat1B \cup StatNB \cup DataDictB \cup FromPhi1B \cup FromPhiNB \cup Inb1B \cup InbNB \cup NumB
             \cup LowPassB \cup IntB \cup PhiXB \cup Phim1B \cup PhimNB \cup LikeB \cup ObjB \cup PerturbB \cup PerturbVB
             \cup GodB \cup DemesB \cup LowPassFuncB \cup DemesSFSB
 
@@ -153,20 +238,23 @@ Site(b) ==
       [] b = "lowpass_cov_dist_2pop" -> "LowPass.compute_cov_dist"
       [] b \in {"demes_sfs_ancient", "demes_sfs_present"} -> "Demes.SFS"
       [] b = "from_demes_ancient" -> "Spectrum.from_demes"
+      [] b \in ExtraB -> ExtraRow(b)[2]
       [] OTHER -> "?"
 
-IsIntegrator(b) == b \in IntB
+IsIntegrator(b) == b \in IntB \cup {"one_pop_X_c"}
 
 \* array arguments: which memory layouts the alphabet offers for a base
 \*   lay = layout of the density / spectrum / vector, xl = layout of the grid
 LayC == {"C"}
 Lay1 == {"C", "S", "N"}                 \* 1-D arrays
 LayN == {"C", "F", "T", "S", "N"}       \* arrays of 2-5 dimensions
-PhiLays(b) == IF b \in FromPhiNB \cup InbNB \cup IntNB \cup PhimNB \cup StatNB \cup LikeB \cup {"project_2d_64_43", "project_2d_64_44"} THEN LayN
+PhiLays(b) == IF ExtraLay(b) \in {"a3", "ax"} THEN {"C", "F", "N"} ELSE IF ExtraLay(b) \in {"v3", "vv"} THEN Lay1 ELSE
+              IF b \in FromPhiNB \cup InbNB \cup IntNB \cup PhimNB \cup StatNB \cup LikeB \cup {"project_2d_64_43", "project_2d_64_44"} THEN LayN
               ELSE IF b \in FromPhi1B \cup Inb1B \cup Int1B \cup Phim1B \cup Stat1B \cup PerturbVB
                          \cup {"project_1d_8_4", "project_1d_8_6", "project_1d_6_4", "project_1d_6_4_folded"} THEN Lay1
               ELSE LayC
-XLays(b)   == IF b \in FromPhi1B \cup FromPhiNB \cup Inb1B \cup InbNB \cup Int1B \cup IntNB \cup PhiXB \cup Phim1B \cup PhimNB THEN Lay1 ELSE LayC
+XLays(b)   == IF ExtraLay(b) \in {"x3", "vv"} THEN Lay1 ELSE IF ExtraLay(b) = "ax" THEN {"C", "S"} ELSE
+              IF b \in FromPhi1B \cup FromPhiNB \cup Inb1B \cup InbNB \cup Int1B \cup IntNB \cup PhiXB \cup Phim1B \cup PhimNB THEN Lay1 ELSE LayC
 HasArrays(b) == PhiLays(b) # LayC \/ XLays(b) # LayC
 
 \* is the result of a non-contiguous argument bit-for-bit the result of its contiguous copy ("exact"), or may the
@@ -175,7 +263,7 @@ HasArrays(b) == PhiLays(b) # LayC \/ XLays(b) # LayC
 \*          the fixed order of the source entries)
 \*   tol:   numpy reductions (sum / dot / trapz) over the argument: statistics, likelihood sums, sampling from phi,
 \*          marginalisation, population removal, admixture (trapz inside)
-LayoutExact(b) == b \in IntB \cup ProjectB \cup PhiXB \cup Phim1B \cup PerturbVB \cup PerturbB
+LayoutExact(b) == b \in {e[1] : e \in {x \in ExtraTab : x[5]}} \cup IntB \cup ProjectB \cup PhiXB \cup Phim1B \cup PerturbVB \cup PerturbB
                          \cup {"fold_2d", "unfold_2d", "log_2d", "reorder_fs_3d", "filter_3d", "ll_per_bin_2d", "anscombe_2d",
                                "phi_2D_to_3D_split_1", "reorder_pops_3d"}
 
@@ -225,7 +313,11 @@ Needs(b) ==
       [] b = "lowpass_func_2d" -> [Z EXCEPT !.proj = ProjK(4, 6, 0..6), !.dbeta = {<<6, "A8">>},
                                             !.part = PartK(0..6, 3) \cup PartK(0..4, 2), !.multinom = MultK(0..6, 3) \cup MultK(0..4, 2)]
       [] b \in {"demes_sfs_ancient", "demes_sfs_present"} -> [Z EXCEPT !.dbeta = {<<4, "A8">>, <<2, "A8">>}]
-      [] b = "from_demes_ancient" -> [Z EXCEPT !.dbeta = {<<n, g>> : n \in {4, 2}, g \in {"A8", "A10", "A12"}}]
+      [] b = "from_demes_ancient" -> [Z EXCEPT !.dbeta = {<<n, g>> : n \in {4, 2}, g \in {"A5", "A6", "A8"}}]
+      [] b = "from_phi_inb_3d_422" -> [Z EXCEPT !.precalc = PartK(0..4, 2) \cup PartK(0..2, 1), !.bb = BBK(GridTags("A7", "3/10", 7))]
+      [] b = "from_phi_2d_43_A_containers" -> [Z EXCEPT !.dbeta = {<<4, "A8">>, <<3, "A8">>}]
+      [] b = "project_2d_64_43_nsarray" -> [Z EXCEPT !.proj = ProjK(4, 6, 0..6) \cup ProjK(3, 4, 0..4)]
+      [] b = "lowpass_no_call_6" -> [Z EXCEPT !.part = PartK(0..6, 3), !.multinom = MultK(0..6, 3)]
       [] OTHER -> Z
 
 \* Two footprints depend on the state:
@@ -234,8 +326,8 @@ Needs(b) ==
 \*  * Godambe.cache: the full key of a model spectrum is (function object, stencil point).  A model function written
 \*    as a lambda at the call site is a NEW function object in every call ("t<k>" for the k-th call of the
 \*    history); a module-level function is the same object in every call ("named").
-ModelOf(b) == IF b \in {"fim_A", "gim_A", "fim_A_named"} THEN "A" ELSE "B"
-GodNeed(b, k) == IF b \in {"fim_A", "fim_B", "gim_A", "gim_B"} THEN {<<ModelOf(b), "t" \o ToString(k)>>}
+ModelOf(b) == IF b \in {"fim_A", "gim_A", "fim_A_named", "lrt_A"} THEN "A" ELSE "B"
+GodNeed(b, k) == IF b \in {"fim_A", "fim_B", "gim_A", "gim_B", "lrt_A", "lrt_B"} THEN {<<ModelOf(b), "t" \o ToString(k)>>}
                  ELSE IF b \in {"fim_A_named", "fim_B_named"} THEN {<<ModelOf(b), "named">>} ELSE {}
 \* the effective footprint of base b as k-th call, given the stored keys of the precalc table
 NeedEff(b, k, prePresent(_)) ==
@@ -245,16 +337,20 @@ NeedEff(b, k, prePresent(_)) ==
                   !.part = @ \cup missing,
                   !.multinom = @ \cup UNION {MultK({q[1]}, q[2]) : q \in missing}]
 \* the functions documented as "Alters phi in place": their density argument is exempt from ArgumentsUnchanged
-DocumentedInPlace == {"phi_2D_admix_1_into_2", "phi_3D_admix_1_and_2_into_3"}
+DocumentedInPlace == {"phi_2D_admix_1_into_2", "phi_3D_admix_1_and_2_into_3", "phi_2D_admix_2_into_1", "phi_3D_admix_1_and_3_into_2",
+                      "phi_3D_admix_2_and_3_into_1", "phi_4D_admix_into_1", "phi_4D_admix_into_2", "phi_4D_admix_into_3", "phi_4D_admix_into_4",
+                      "phi_5D_admix_into_1", "phi_5D_admix_into_2", "phi_5D_admix_into_3", "phi_5D_admix_into_4", "phi_5D_admix_into_5"}
 
 \* Inference._counter: objective evaluations of the call;  Inference._theta_store: keys it holds after the call
-Evals(b) == CASE b \in {"object_func_A", "object_func_B_store"} -> 1 [] b = "optimize_grid_A" -> 6 [] OTHER -> 0
+\* (for the optimisers OptB the number is "at least 1": the model uses 1, the trace spec demands >= 1)
+Evals(b) == CASE b \in {"object_func_A", "object_func_B_store"} \cup OptB -> 1 [] b = "optimize_grid_A" -> 6 [] OTHER -> 0
 ThetaAfter(b, th) == CASE b = "object_func_B_store" -> th \cup {"B:p0"}
                        [] b = "optimize_grid_A" -> {"A:g1", "A:g2", "A:g3", "A:g4", "A:g5", "A:g6"}    \* the table is replaced
                        [] OTHER -> th
 
 \* the demes event log: <<"append", k>>, <<"reset", k>> (phi_1D starts a new log; k events afterwards), <<"model", k>>, <<"none">>
 LogEffect(b) ==
+    IF b \in ExtraB THEN (CASE ExtraRow(b)[4] = "append1" -> <<"append", 1>> [] ExtraRow(b)[4] = "reset2" -> <<"reset", 2>> [] OTHER -> <<"none">>) ELSE
     CASE b \in IntB \cup Phim1B \cup PhimNB -> <<"append", 1>>
       [] b \in PhiXB -> <<"reset", 1>>
       [] b \in ObjB \cup GodB -> <<"reset", 2>>          \* the model function: phi_1D ; one_pop
@@ -282,10 +378,12 @@ KernelBases == {b \in AllBases : KernelGrid(b)}
 NeedsF == [b \in AllBases |-> Needs(b)]
 SiteF  == [b \in AllBases |-> Site(b)]
 AttrF  == [b \in AllBases |-> [evals |-> Evals(b), log |-> LogEffect(b), integ |-> IsIntegrator(b),
-                                args |-> (IF PhiLays(b) # LayC \/ b \in IntB \cup PerturbB \cup LowPassFuncB \cup DemesSFSB THEN {1} ELSE {}) \cup (IF XLays(b) # LayC THEN {2} ELSE {}),
+                                args |-> (IF PhiLays(b) # LayC \/ b \in IntB \cup PerturbB \cup LowPassFuncB \cup DemesSFSB \cup ExtraB THEN {1} ELSE {}) \cup (IF XLays(b) # LayC THEN {2} ELSE {}),
                                 god |-> b \in GodB]]
 
-MemoBases == {b \in AllBases : Needs(b) # Z \/ b \in GodB \/ Evals(b) > 0 \/ b \in DemesB} \cup {"part_4_3", "four_pops_c", "one_pop_td", "phi_1D", "perturb_params_none_bounds", "lowpass_cov_dist_2pop",
+\* (left to the 2-call graph: calls whose footprint / bookkeeping duplicates another memo-relevant base)
+MemoSkip == (OptB \ {"optimize_log_A"}) \cup {"from_phi_2d_43_A_containers", "project_2d_64_43_nsarray"}
+MemoBases == ({b \in AllBases : Needs(b) # Z \/ b \in GodB \/ Evals(b) > 0 \/ b \in DemesB} \ MemoSkip) \cup {"part_4_3", "four_pops_c", "one_pop_td", "phi_1D", "perturb_params_none_bounds", "lowpass_cov_dist_2pop",
                   "one_pop_td_B", "two_pops_td", "two_pops_td_B"}
 \* one representative of every kind of table interaction (for the deeper exhaustive run)
 CoreBases == {"project_1d_8_4", "project_1d_6_4", "project_2d_64_43", "from_data_dict_1d_4", "lowpass_projmat_6_4", "cached_projection_4_6_3",
@@ -295,10 +393,16 @@ CoreBases == {"project_1d_8_4", "project_1d_6_4", "project_2d_64_43", "from_data
               "fim_A", "fim_B", "fim_A_named", "gim_B", "object_func_B_store", "optimize_grid_A",
               "demes_output_X", "demes_output_again_Y", "demes_output_again_none", "four_pops_c", "phi_1D",
               "lowpass_func_2d", "demes_sfs_ancient", "one_pop_td", "one_pop_td_B"}
+\* the quick tier's depth-3 run: one call per mechanism (table family / bookkeeping / kernel / hash order)
+QuickCoreBases == {"project_1d_6_4", "from_data_dict_1d_4", "lowpass_projmat_6_4", "from_phi_2d_43_A", "from_phi_2d_43_B", "from_phi_3d_432_A",
+                   "from_phi_inb_1d_4", "cached_part_precalc_4_3", "betabinomconv_4_3", "lowpass_partprob_af_6_4",
+                   "fim_A", "fim_B", "fim_A_named", "object_func_B_store", "optimize_grid_A", "demes_output_X", "demes_output_again_Y",
+                   "one_pop_td", "one_pop_td_B", "lowpass_func_2d", "demes_sfs_ancient"}
 Bases == CASE BaseSel = "memo" -> MemoBases
-           [] BaseSel = "graph" -> MemoBases \cup KernelBases
+           [] BaseSel = "quickcore" -> QuickCoreBases
+           [] BaseSel = "graph" -> MemoBases \cup KernelBases \cup MemoSkip
            [] BaseSel = "core" -> CoreBases
-           [] BaseSel = "god" -> {"fim_A", "fim_B", "gim_B", "fim_A_named"}
+           [] BaseSel = "god" -> {"fim_A", "fim_B", "fim_A_named"}
            [] BaseSel = "godall" -> GodB
            [] OTHER -> AllBases
 CallOK(c) == /\ c.lay \in PhiLays(c.b) /\ c.xl \in XLays(c.b)
